@@ -63,6 +63,23 @@ def _cases(tier):
             if op == "in" and isinstance(seq[0], list):
                 continue  # `x in snapshot(<non-literal>)` is outside the documented usage of `in`
             cases.append({"reeval": op, "argseq": seq})
+    # several handles of one sub-snapshot key obtained before the first comparison, then compared through in every order
+    for op in ("<=", ">=", "in"):
+        for keys in (["k", "k"], ["k", "j", "k"], ["k", "k", "k"]):
+            hv = [(h, v) for h in range(len(keys)) for v in (0, 1, 2)]
+            for n in (2, 3):
+                if n == 3 and (len(keys) == 3 and tier == "quick"):
+                    continue
+                for seq in itertools.product(hv, repeat=n):
+                    if len({h for h, _ in seq}) < 2:
+                        continue
+                    for prev in ("", "{'k': 1}") if op != "in" else ("", "{'k': [1]}"):
+                        cases.append({"reeval": "handles", "op": op, "keys": keys, "seq": [list(x) for x in seq], "prev": prev})
+    # the argument is an expression that yields the same (long-lived) object each time, modified in place between evaluations
+    for op in ("==", "<=", "[k]"):
+        for arg in ("ROW", "[ROW, 'end']", "{'k': ROW}", "(ROW, 1)", "DCR(x=ROW)", "[[ROW]]", "TABLE", "TABLE['cols']"):
+            for mut in ("ROW.append(6)", "ROW[0] = 7", "ROW.clear()"):
+                cases.append({"reeval": op, "mutarg": arg, "mut": mut})
     return cases
 
 
@@ -257,6 +274,10 @@ def _judge_reeval(c):
     from ..drivers.inline import run_inline
     from ..oracles.locate import snapshot_calls
 
+    if "mutarg" in c:
+        return _judge_reeval_mut(c)
+    if c["reeval"] == "handles":
+        return _judge_handles(c)
     op, seq = c["reeval"], c["argseq"]
     x = {"==": "ARGS[0]", "<=": "0", "in": "ARGS[0]", "[k]": "1"}[op]
     arg = "next(it)" if op != "[k]" else "{0: next(it)}"
@@ -271,6 +292,65 @@ def _judge_reeval(c):
         return [("internal-error", r["error"]["type"] + ": " + r["error"]["msg"][:200])], ctx
     if not r["raised"]:
         return [("changed-argument-not-rejected", "argument sequence %r, no exception; file:\n%s" % (seq, ctx["after"][-300:]))], ctx
+    return [None], ctx
+
+
+def _judge_handles(c):
+    from ..drivers.inline import run_inline
+    from ..oracles.locate import snapshot_calls
+
+    op, keys, seq, prev = c["op"], c["keys"], c["seq"], c["prev"]
+    lines = ["s = snapshot(%s)" % prev] + ["h%d = s[%r]" % (i, k) for i, k in enumerate(keys)]
+    lines += ["_ok = %r %s h%d" % (v, op, h) for h, v in seq]
+    src = "from inline_snapshot import snapshot\n\n\ndef test_0():\n" + "".join("    " + l + "\n" for l in lines)
+    ctx = {"src": src}
+    r = run_inline({"test_something.py": src}, ["create", "fix", "trim"])
+    ctx["after"] = r["files"].get("test_something.py", "")
+    if r["error"]:
+        return [("internal-error", r["error"]["type"] + ": " + r["error"]["msg"][:200])], ctx
+    if r["raised"]:
+        return [("test-raised", str(r["raised"])[:200])], ctx
+    exp = {}
+    for h, v in seq:
+        exp.setdefault(keys[h], []).append(v)
+    if op == "in":
+        # fix appends the missing members to the previous list, trim removes the members that were never tested
+        fold = {}
+        for k, vs in exp.items():
+            n = [x for i, x in enumerate(vs) if x not in vs[:i]]
+            old = [1] if (prev and k == "k") else []
+            fold[k] = [x for x in old if x in n] + [x for x in n if x not in old]
+    else:
+        fold = {k: (max(vs) if op == "<=" else min(vs)) for k, vs in exp.items()}
+    try:
+        got = eval(snapshot_calls(ctx["after"])[0]["arg_text"] or "None")
+    except Exception as e:  # noqa
+        return [("written-argument-not-evaluable", str(e))], ctx
+    if got != fold:
+        return [("site-aggregate-differs", "handles %s, comparisons %s %s: written %r, per-key fold %r" % (keys, op, seq, got, fold))], ctx
+    return [None], ctx
+
+
+def _judge_reeval_mut(c):
+    from ..drivers.inline import run_inline
+
+    op, arg, mut = c["reeval"], c["mutarg"], c["mut"]
+    pre = ("from dataclasses import dataclass\nfrom inline_snapshot import snapshot\n\n\n@dataclass\nclass DCR:\n    x: object\n\n\n"
+           "ROW = [5]\nTABLE = {'cols': ROW, 'n': 1}\n\n\n")
+    first = "eval(%r)" % arg  # the value the argument has at its first evaluation (compared with itself: passes)
+    cmp_ = {"==": "FIRST == snapshot(%s)" % arg, "<=": "FIRST <= snapshot(%s)" % arg, "[k]": "snapshot({0: %s})[0] == FIRST" % arg}[op]
+    src = pre + "import copy\nFIRST = copy.deepcopy(%s)\n\n\ndef f():\n    return %s\n\n\ndef test_0():\n    f()\n    %s\n    f()\n" % (arg, cmp_, mut)
+    ctx = {"src": src}
+    # (update is left out: it may legitimately turn the hand-written expression into the literal of the first, equal, evaluation)
+    for flags in ([], ["create", "fix", "trim"]):
+        r = run_inline({"test_something.py": src}, flags)
+        ctx["after"] = r["files"].get("test_something.py", "")
+        if r["error"]:
+            return [("internal-error", r["error"]["type"] + ": " + r["error"]["msg"][:200])], ctx
+        if not r["raised"]:
+            return [("changed-argument-not-rejected", "argument %s modified in place by %s (flags %s): no exception" % (arg, mut, flags))], ctx
+        if ctx["after"] != src:
+            return [("changed-argument-recorded", "flags %s:\n%s" % (flags, ctx["after"][-300:]))], ctx
     return [None], ctx
 
 
